@@ -19,7 +19,7 @@ from vf.props.c05 import first_diff, region
 
 ID = 'C14'
 LEVEL = 'fault_enumeration'
-ROW_NAMES = [r[0] for r in BadCatalogue(Model({'level': 1})).rows() + BadCatalogue(Model({'level': 1})).rows_late()]
+ROW_NAMES = [r[0] for r in BadCatalogue(Model({'level': 1})).rows() + BadCatalogue(Model({'level': 1})).rows_late() + BadCatalogue(Model({'level': 1})).rows_more()]
 RULE = ('cases = generated history with 1-3 refused calls inserted at drawn points; the refused calls enumerate the %d rows of the refusal catalogue '
         '(mutator x cause x stage, see DESIGN.md appendix A). Each case is executed twice (with and without the refused calls) and the images are compared. '
         'Non-trivial = at least one inserted call was actually refused by the library in a "staged" row (after an earlier namespace / side-effecting helper of the same call ran) '
